@@ -9,10 +9,10 @@ export GOFLAGS=-mod=mod GOPROXY=off GOSUMDB=off
 cd $wt || exit 2
 git checkout -q -- . && git clean -fdq
 cp $out/${m}_demo_test.go $pkg/zz_${m}_demo_test.go
-name=$(grep -o 'func Test[A-Za-z0-9_]*' $out/${m}_demo_test.go | head -1 | sed 's/func //')
-echo "== demo on clean tree ($name)"; go test -count=1 -run "^$name\$" ./$pkg/ 2>&1 | tail -3; clean=$?
+name=$(grep -o '^func Test[A-Za-z0-9_]*' $out/${m}_demo_test.go | sed 's/func //' | paste -sd'|')
+echo "== demo on clean tree ($name)"; go test -count=1 -run "^($name)\$" ./$pkg/ 2>&1 | tail -3; clean=$?
 git apply $out/$m.diff || { echo "PATCH DOES NOT APPLY"; git checkout -q -- .; git clean -fdq; exit 3; }
-echo "== demo with change"; timeout 300 go test -count=1 -run "^$name\$" ./$pkg/ 2>&1 | tail -5
+echo "== demo with change"; timeout 300 go test -count=1 -run "^($name)\$" ./$pkg/ 2>&1 | tail -5
 rm $pkg/zz_${m}_demo_test.go
 echo "== build + existing tests with change"; go build ./... && go test -vet=off -count=1 "$@" 2>&1 | tail -6
 git checkout -q -- . && git clean -fdq
